@@ -834,7 +834,7 @@ func TestC20(t *testing.T) {
 		}()
 	}
 	wg.Wait()
-	code := run.Finish("the bundled HTTP server runs on a real stack whose link loops packets back to it (a harness link, so the TCP byte streams of both directions are reassembled from the tap), in virtual time. HTTP: GET/HEAD/POST/PUT to registered and unregistered paths with 0-8 PRNG headers (token: token) and 0-900-byte bodies from the accepted grammar, sent by the bundled client 10 ms after connecting; the handler's view (method, every sent header, body) and the client's result are compared with what was sent/produced, the status line is read off the wire, unregistered paths must not reach a handler. WebSocket: the bundled client (unmasked) and a harness client over a raw TCP endpoint with an independent RFC 6455 encoder/decoder (masked with zero, all-ones and PRNG keys) upgrade on /ws; the accept key must equal base64(SHA-1(key+GUID)); 1-6 messages per session with lengths from {0,1,2,124..128,1000,65534..65537,100000 (,300000)} and PRNG lengths, one at a time and in bursts, must be echoed byte for byte, in order, with the right frame-length encoding. distinct = exchange shapes",
+	code := run.Finish("the bundled HTTP server runs on a real stack whose link loops packets back to it (a harness link, so the TCP byte streams of both directions are reassembled from the tap), in virtual time. HTTP: GET/HEAD/POST/PUT to registered and unregistered paths with 0-8 PRNG headers (token: token) and 0-900-byte bodies from the accepted grammar, sent by the bundled client 10 ms after connecting; the handler's view (method, every sent header, body) and the client's result are compared with what was sent/produced, the status line is read off the wire, unregistered paths must not reach a handler. WebSocket: the bundled client (unmasked) and a harness client over a raw TCP endpoint with an independent RFC 6455 encoder/decoder (masked with zero, all-ones and PRNG keys) upgrade on /ws; the accept key must equal base64(SHA-1(key+GUID)); 1-6 messages per session with lengths from {0,1,2,124..128,1000,65534..65537,100000 (,300000)} and PRNG lengths, one at a time and in bursts, must be echoed byte for byte, in order, with the right frame-length encoding. distinct = exchange shapes Later additions: A route is registered while a WebSocket session is open; request bodies begin with / contain CR and LF. The late route is, half of the time, a path that was requested and refused before.",
 		[]string{"requests and responses fit one TCP segment (the HTTP layer reads a message with a single receive)", "the 10 ms pause avoids the bundled server's late waiter registration, which is schedule-dependent and outside this property"})
 	os.Exit(code)
 }
